@@ -46,9 +46,9 @@ def run(c):
         c.tlc_trace("TraceDcutr", t)
         return c.finish("model_checking", rule="replay")
     t1 = c.rundir / "exhaustive.ndjson"
-    c.drive(drv, ["beh", "exhaustive", c.pick(2, 4), t1])
+    c.drive(drv, ["beh", "exhaustive", c.pick(2, 3), t1])
     t2 = c.rundir / "random.ndjson"
-    c.drive(drv, ["beh", "random", c.seed, c.pick(300, 6000), t2])
+    c.drive(drv, ["beh", "random", c.seed, c.pick(300, 10000), t2])
     nontrivial = set()
     for t in (t1, t2):
         n, nt, dials, att, deny = stats(t)
